@@ -764,3 +764,79 @@ Proof.
   - intros H k e He Hl. apply H. apply map_filter_lookup_Some. split; [exact He|exact Hl].
   - intros H k e He. apply map_filter_lookup_Some in He as [He Hl]. apply H; assumption.
 Qed.
+
+(* ================= membership ================= *)
+
+Lemma members_after_snoc h e : members_after (h ++ [e]) = mev_step (members_after h) e.
+Proof. unfold members_after. rewrite foldl_app. reflexivity. Qed.
+
+Lemma name_eqb_false (m n : string) : m <> n -> negb (String.eqb m n) = true.
+Proof. intros H. apply negb_true_iff, String.eqb_neq. exact H. Qed.
+
+Lemma mev_step_keeps ms e n :
+  n ∈ map fst ms -> e <> MLeave n -> n ∈ map fst (mev_step ms e).
+Proof.
+  intros Hin Hne.
+  assert (Hf : forall m, m <> n -> n ∈ map fst (filter (fun x : string * string => negb (String.eqb (fst x) m)) ms)).
+  { intros m Hm. apply elem_of_list_In, in_map_iff. apply elem_of_list_In, in_map_iff in Hin as ([n' a'] & Hn & Hin').
+    cbn in Hn. subst n'. exists (n, a'). split; [reflexivity|]. apply elem_of_list_In, elem_of_list_filter.
+    split; [|apply elem_of_list_In; exact Hin']. cbn. rewrite name_eqb_false by congruence. exact I. }
+  destruct e as [m a|m]; cbn [mev_step].
+  - destruct (decide (m = n)) as [->|Hm]; [cbn; apply elem_of_list_here|].
+    cbn [map fst]. apply elem_of_list_further. apply Hf. exact Hm.
+  - apply Hf. congruence.
+Qed.
+
+(* once an instance has joined under a name, it stays in the member view until THAT NAME leaves — whatever other
+   names join or leave meanwhile, including an older name that used the same address *)
+Theorem member_until_its_own_name_leaves h n a h' :
+  Forall (fun e => e <> MLeave n) h' -> n ∈ map fst (members_after (h ++ MJoin n a :: h')).
+Proof.
+  induction h' as [|e h' IH] using rev_ind; intros Hall.
+  - replace (h ++ [MJoin n a]) with (h ++ [MJoin n a]) by reflexivity. rewrite members_after_snoc. cbn. apply elem_of_list_here.
+  - apply Forall_app in Hall as [Hh' He]. apply Forall_cons in He as [He _].
+    replace (h ++ MJoin n a :: h' ++ [e]) with ((h ++ MJoin n a :: h') ++ [e]) by (rewrite <- app_assoc; reflexivity).
+    rewrite members_after_snoc. apply mev_step_keeps; [apply IH; exact Hh'|exact He].
+Qed.
+
+Theorem oversize_receiver_until_its_own_name_leaves self h n a h' :
+  n <> self -> Forall (fun e => e <> MLeave n) h' -> n ∈ oversize_receivers self (h ++ MJoin n a :: h').
+Proof.
+  intros Hs Hall. unfold oversize_receivers. apply elem_of_list_filter. split.
+  - rewrite name_eqb_false by exact Hs. exact I.
+  - apply member_until_its_own_name_leaves. exact Hall.
+Qed.
+
+(* ================= TLS framing ================= *)
+
+Lemma le32_roundtrip n :
+  0 <= n < 4294967296 ->
+  un_le32 (Z.to_N (n mod 256)) (Z.to_N (n / 256 mod 256)) (Z.to_N (n / 65536 mod 256)) (Z.to_N (n / 16777216 mod 256)) = n.
+Proof.
+  intros H. unfold un_le32.
+  pose proof (Z.mod_pos_bound n 256 ltac:(lia)). pose proof (Z.mod_pos_bound (n / 256) 256 ltac:(lia)).
+  pose proof (Z.mod_pos_bound (n / 65536) 256 ltac:(lia)). pose proof (Z.mod_pos_bound (n / 16777216) 256 ltac:(lia)).
+  rewrite !Z2N.id by lia.
+  assert (E2 : n / 65536 = n / 256 / 256) by (rewrite Z.div_div by lia; reflexivity).
+  assert (E3 : n / 16777216 = n / 256 / 256 / 256) by (rewrite !Z.div_div by lia; reflexivity).
+  assert (0 <= n / 16777216 < 256) by (split; [apply Z.div_pos; lia|apply Z.div_lt_upper_bound; lia]).
+  rewrite (Z.mod_small (n / 16777216) 256) by lia.
+  pose proof (Z.div_mod n 256 ltac:(lia)). pose proof (Z.div_mod (n / 256) 256 ltac:(lia)).
+  pose proof (Z.div_mod (n / 256 / 256) 256 ltac:(lia)).
+  rewrite E2, E3 in *. lia.
+Qed.
+
+(* FRAMES WRITTEN ATOMICALLY ARE READ BACK INTACT: a stream that is a concatenation of whole frames (any number of
+   writers, any lock order) parses to exactly the messages written, in stream order *)
+Theorem parse_frames_of_frames ps : forall fuel,
+  (length ps <= fuel)%nat -> Forall (fun p => Z.of_nat (length p) < 4294967296) ps ->
+  parse_frames fuel (concat (map frame ps)) = Some ps.
+Proof.
+  induction ps as [|p ps IH]; intros fuel Hf Hall; [destruct fuel; reflexivity|].
+  apply Forall_cons in Hall as [Hp Hall]. destruct fuel as [|f]; [cbn in Hf; lia|].
+  cbn [map concat]. unfold frame at 1. unfold le32. cbn [app parse_frames].
+  rewrite le32_roundtrip by lia. rewrite Nat2Z.id.
+  assert (Hle : (length p <=? length (p ++ concat (map frame ps)))%nat = true).
+  { apply Nat.leb_le. rewrite app_length. lia. }
+  rewrite Hle. rewrite drop_app, take_app. rewrite IH; [reflexivity|cbn in Hf; lia|exact Hall].
+Qed.
